@@ -71,7 +71,7 @@ Definition rule_entry (qk : quirks) (r : reg) (new : string) (old : option strin
   end.
 (** the text parser reads every rule line before [from_definition] looks at the first one *)
 Definition rules_table (qk : quirks) (r : reg) (rules : list string) : res (gmap string uc) :=
-  parsed ←r foldM (λ acc line, p ←r parse_rule line; Ok (acc ++ [p])) rules [];
+  parsed ←r foldM (λ (acc : list (string * option string)) line, p ←r parse_rule line; Ok (app acc [p])) rules [];
   foldM (λ acc (p : string * option string), ' (o, d) ←r rule_entry qk r p.1 p.2; Ok (<[ o := d ]> acc))
         parsed ∅.
 (** [System.from_lines] / [from_definition]: nothing is registered when a rule fails *)
